@@ -1,7 +1,7 @@
 #!/bin/bash
 # Runs every registered check of a tier and prints one line per property.
 T=${1:-quick}
-cd /verif
+cd "$(dirname "$0")/.."
 for p in $(python3 -c "import json;print(' '.join(c['property_id'] for c in json.load(open('MANIFEST.json'))['checks']))"); do
   s=$(date +%s)
   out=$(timeout 7200 bin/vcheck -tier $T $p 2>&1); rc=$?
